@@ -36,7 +36,7 @@ def replay(rec):
 LEVEL_TEXT = ("negotiate_as_acceptor is verified by induction over the proposed contexts with symbolic list lengths: for an arbitrary "
               "proposed context exactly one result with its id/abstract syntax; result 3/4 exactly under their conditions; the accepted "
               "transfer syntax is the acceptor's first preference among the proposed ones (quantified loop invariant); roles equal the "
-              "PS3.7 role function for all 6x9 proposal/setting pairs; replies never raise a role. SCP_SCU_ROLES is compared cell by cell.")
+              "PS3.7 role function for all 6x9 proposal/setting pairs; replies never raise a role. SCP_SCU_ROLES is compared cell by cell. ACSE._negotiate_as_acceptor (call site): negotiation mode by UNRESTRICTED_STORAGE_SERVICE, arguments, accepted/rejected split, every role reply added to the AC.")
 LEVEL_NOTE = "trusted: pyvc, z3 (UF + quantified invariant), spec/roles.py, sorted() contract. Unrestricted-storage mode: see NOT_DECIDED."
 TECHNIQUE = "deductive: inductive loop contracts on negotiate_as_acceptor (AST->VC, z3 UF/quantifiers) + exhaustive role-table comparison"
 NOT_DECIDED = ["which abstract syntaxes count as storage-like in unrestricted mode (pydicom UID.is_private / keyword tables) is opaque: "
